@@ -179,6 +179,8 @@ pub struct Recorder {
     seen: HashSet<String>,
     pub raw: u64,
     pub panics_in_type: u64,
+    /// the run pulled an iterator past its end at least once
+    pub tainted: bool,
 }
 
 const HELPER_PARAMS: [&[&str]; 3] = [&["func", "mapper"], &["func", "predicate"], &["array", "default"]];
@@ -203,6 +205,11 @@ impl Recorder {
                 if matches!(kind, "Map" | "Filter" | "Iter" | "TypeFilter") {
                     if let Variable::Function(f) = &value {
                         self.helper_fns.insert(std::sync::Arc::as_ptr(f) as usize);
+                    }
+                }
+                if let Variable::Tuple(es) = &value {
+                    if es.len() == 2 && matches!(es[0], Variable::Bool(false)) {
+                        self.tainted = true;
                     }
                 }
                 match static_type {
@@ -357,11 +364,13 @@ pub fn run(args: &[String]) -> Value {
         n_events_raw += rec.raw;
         if let Some(w) = &mut events_out {
             for ev in &rec.events {
-                // identical events of different runs are judged once (the judgement is a function of the event)
+                // identical events of different runs are judged once (the judgement is a function of the event);
+                // runs that pulled an exhausted iterator are kept apart (their events carry "t": 1)
+                let mut ev = ev.clone();
+                ev["t"] = json!(rec.tainted as i64);
                 if !seen_events.insert(ev.to_string()) {
                     continue;
                 }
-                let mut ev = ev.clone();
                 ev["case"] = case["id"].clone();
                 writeln!(w, "{}", ev).unwrap();
                 n_events += 1;
